@@ -271,6 +271,39 @@ def _import_here(dest, data, captured=None):
     return dict(proc.cache_mgr.marks)
 
 
+class _Imported:
+    """Plain-data view of the imported repository, produced inside the import server (so that reading a repository the importer
+    damaged - e.g. a cyclic inventory - cannot hang or crash the worker either)."""
+
+    def __init__(self, d):
+        self.__dict__.update(d)
+
+
+def _snapshot_imported(dest, marks):
+    from breezy.branch import Branch
+
+    out = {"error": None, "revids": [], "tip": None, "revno": None, "tags": {}, "revs": {}}
+    try:
+        nb = Branch.open(os.path.join(dest, "trunk"))
+    except Exception as e:
+        out["error"] = "%s: %r; destination holds %r" % (type(e).__name__, e, sorted(os.listdir(dest)))
+        return out
+    nrepo = nb.repository
+    with nrepo.lock_read():
+        out["revids"] = list(nrepo.all_revision_ids())
+        out["tip"], out["revno"] = nb.last_revision(), nb.revno()
+        out["tags"] = dict(nb.tags.get_tag_dict())
+        have = set(out["revids"])
+        for rid in set(marks.values()):
+            if rid not in have:
+                continue
+            rev = nrepo.get_revision(rid)
+            out["revs"][rid] = {"parents": list(rev.parent_ids), "message": rev.message, "committer": rev.committer,
+                                "timestamp": rev.timestamp, "timezone": rev.timezone, "authors": rev.get_apparent_authors(),
+                                "tree": observe.snap_tree(nrepo.revision_tree(rid))}
+    return out
+
+
 _server = {"pid": None, "w": None, "r": None}
 
 
@@ -278,6 +311,7 @@ def _serve(rfd, wfd):
     """Import server (forked child of the worker, started while the worker is still small): one job per line on rfd."""
     import faulthandler
     import json
+    import pickle
     import resource
     import signal
     import time
@@ -297,6 +331,8 @@ def _serve(rfd, wfd):
                     captured = io.StringIO()
                     marks = _import_here(job["dest"], data, captured)
                     out = {"ok": True, "marks": {k.decode("latin-1"): v.decode("latin-1") for k, v in marks.items()}}
+                    with open(job["snap"], "wb") as f:
+                        pickle.dump(_snapshot_imported(job["dest"], marks), f)
                 except BaseException as e:  # reported to the parent, which classifies it
                     out = {"ok": False, "type": type(e).__name__, "where": _where(e), "text": repr(e)[:400],
                            "tb": traceback.format_exc()[-2500:], "stdout": captured.getvalue()[-2000:]}
@@ -353,7 +389,7 @@ def _import(ctx, data):
     dest = ctx.tmp("c44dest")
     side = ctx.tmp("c44side")
     job = {"dest": dest, "stream": os.path.join(side, "stream.fi"), "res": os.path.join(side, "result.json"),
-           "trace": os.path.join(side, "trace.txt")}
+           "trace": os.path.join(side, "trace.txt"), "snap": os.path.join(side, "imported.pickle")}
     with open(job["stream"], "wb") as f:
         f.write(data)
     if _server["pid"] is None:
@@ -392,7 +428,11 @@ def _import(ctx, data):
         e = _ImportFailed(out["type"], out["where"], out["text"] + "\n" + out["tb"])
         e.stdout = out.get("stdout", "")
         raise e
-    return dest, {k.encode("latin-1"): v.encode("latin-1") for k, v in out["marks"].items()}
+    import pickle
+
+    with open(job["snap"], "rb") as f:
+        imported = _Imported(pickle.load(f))
+    return imported, {k.encode("latin-1"): v.encode("latin-1") for k, v in out["marks"].items()}
 
 
 def _strip_properties(data):
@@ -672,15 +712,13 @@ def _roundtrip(ctx, rng, h, bname, plain, rewrite_tags):
             import_failed(e, data)
             return
     ctx.count("roundtrip")
-    # ---- open the imported side
-    try:
-        nb = Branch.open(os.path.join(dest, "trunk"))
-    except Exception as e:
-        ctx.fail("import:no-trunk-branch:%s" % type(e).__name__, "%r; destination holds %r" % (e, sorted(os.listdir(dest))), detail)
+    # ---- the imported side, as plain data snapshotted inside the import server
+    imp = dest
+    if imp.error:
+        ctx.fail("import:no-trunk-branch", imp.error[:600], detail)
         return
-    nrepo = nb.repository
-    with repo.lock_read(), nrepo.lock_read():
-        new_ids = set(nrepo.all_revision_ids())
+    with repo.lock_read():
+        new_ids = set(imp.revids)
         # ---- mapping and count
         mapping = {}
         for r in anc:
@@ -705,23 +743,23 @@ def _roundtrip(ctx, rng, h, bname, plain, rewrite_tags):
             ctx.fail("mapping:not-injective", "two source revisions map to one imported revision", detail)
         # ---- tip
         if tip in mapping:
-            if nb.last_revision() != mapping[tip]:
+            if imp.tip != mapping[tip]:
                 ok = False
                 ctx.fail("tip:differs", "imported trunk tip is not the image of the source tip", detail)
-            elif nb.revno() != br.revno():
+            elif imp.revno != br.revno():
                 ok = False
-                ctx.fail("tip:revno-differs", "revno %d vs %d" % (nb.revno(), br.revno()), detail)
+                ctx.fail("tip:revno-differs", "revno %d vs %d" % (imp.revno, br.revno()), detail)
         # ---- attribution aid 2: per commit, is the imported tree what the commands make of the imported tree of the 'from' parent?
         isnaps = {}
 
         def imp_snap(mark):
             if mark not in isnaps:
-                isnaps[mark] = observe.strip_ids(observe.snap_tree(nrepo.revision_tree(marks[mark])))
+                isnaps[mark] = observe.strip_ids(imp.revs[marks[mark]]["tree"])
             return isnaps[mark]
 
         i_problem = {}
         for mark, frm, merges, fcs, cmd in commits:
-            if mark not in marks or (frm and frm not in marks):
+            if marks.get(mark) not in imp.revs or (frm and marks.get(frm) not in imp.revs):
                 continue
             ctx.count("import_commit_checked")
             model, notes = sm.apply_commands(imp_snap(frm) if frm else {}, fcs)
@@ -740,7 +778,7 @@ def _roundtrip(ctx, rng, h, bname, plain, rewrite_tags):
         classes_sig = []
         nmerge = 0
         for r in order:
-            rev, nrev = repo.get_revision(r), nrepo.get_revision(mapping[r])
+            rev, nrev = repo.get_revision(r), imp.revs[mapping[r]]
             parents[r] = list(rev.parent_ids)
             if len(rev.parent_ids) > 1:
                 nmerge += 1
@@ -749,9 +787,9 @@ def _roundtrip(ctx, rng, h, bname, plain, rewrite_tags):
             # parents (ordered => same graph and same left-hand shape)
             ctx.count("rev_parents")
             want = [mapping.get(p) for p in rev.parent_ids]
-            if list(nrev.parent_ids) != want:
+            if list(nrev["parents"]) != want:
                 ok = False
-                got = list(nrev.parent_ids)
+                got = list(nrev["parents"])
                 if sorted(got) == sorted(x for x in want if x):
                     key = "parents:order-differs"
                 elif len(got) < len(want):
@@ -762,16 +800,16 @@ def _roundtrip(ctx, rng, h, bname, plain, rewrite_tags):
             # metadata
             ctx.count("rev_meta")
             for field in ("message", "committer", "timestamp", "timezone"):
-                x, y = getattr(rev, field), getattr(nrev, field)
+                x, y = getattr(rev, field), nrev[field]
                 if x != y:
                     ok = False
                     ctx.fail("meta:%s-differs" % field, "revision %s: %s %r imported as %r" % (r.decode(), field, x, y), rd)
-            if rev.get_apparent_authors() != nrev.get_apparent_authors():
+            if rev.get_apparent_authors() != nrev["authors"]:
                 ctx.hist("authors differ (not judged)")
             # trees
             ctx.count("rev_tree")
             a = src_snap(r)
-            bsn = observe.snap_tree(nrepo.revision_tree(mapping[r]))
+            bsn = nrev["tree"]
             pa = src_snap(rev.parent_ids[0]) if rev.parent_ids else {}
             d = Delta(pa, a)
             classes_sig.append(d.classes)
@@ -817,7 +855,7 @@ def _roundtrip(ctx, rng, h, bname, plain, rewrite_tags):
                 else:
                     ctx.fail("tree:%s:%s" % (cls, sym), base_msg + "; stream and import each look consistent for this commit", det)
         # ---- tags
-        new_tags = dict(nb.tags.get_tag_dict())
+        new_tags = dict(imp.tags)
         for t, r in sorted(src_tags.items()):
             if r not in mapping:
                 continue
